@@ -69,7 +69,7 @@ func asaVPNCutSpace() *space {
 func init() {
 	registerSharded("C10", c10Worker, func(tier string) core.Meta {
 		return core.Meta{ID: "C10", Level: "model_checking",
-			Rule: "crash points: for every (device,target) pair of the reduced spaces and every proper prefix of the flattened script (joined lines are cut between their halves, sub-mode blocks after each line) the state reached on the reference model is printed and given to the real planner again; its script must be accepted command by command, the result must be equivalent to the target and a third compare must be silent; states = distinct model states incl. cut states; non-trivial = pairs with a non-empty script",
+			Rule: "crash points: for every (device,target) pair of the reduced spaces and every proper prefix of the flattened script (joined lines are cut between their halves, sub-mode blocks after each line) the state reached on the reference model is printed and given to the real planner again; its script must be accepted command by command, the result must be equivalent to the target and a third compare must be silent; states = distinct model states incl. cut states; non-trivial = pairs with a non-empty script; ASA space shared-group (one group used from the ACLs of two interfaces, duplicate group and left-over ACL as an interrupted run leaves them, both orders of the access-group lines); PAN-OS last cut position: the run is cut off at the commit request (HTTP 500 / connection closed / no answer, both front ends) in the HTTPS simulator, which keeps candidate and running configuration apart; the resumed approve must bring the running configuration to the target",
 			Assumptions: []string{
 				"a cut loses the session but every command sent before it has taken effect (the statement's crash model)",
 				"device models as in C01-C05",
